@@ -27,7 +27,7 @@ TIERS = {
     "thorough": {"runs": 5000, "wall_cap": 3300, "reexecute": 60},
 }
 FAILS = ["syntax", "type", "runtime", "runtime_opaque", "convert", "missing_import", "post_out", "lazy_missing_import", "lazy_broken_import",
-         "strict_only_field", "strict_only_env", "convert_late_xml", "convert_late_yamlmulti"]
+         "strict_only_field", "strict_only_env", "convert_late_xml", "convert_late_yamlmulti", "div_zero", "mod_zero", "format_too_few_args"]
 SPELL = ["plain", "dot", "dotdot", "redundant", "abs"]
 
 
@@ -177,6 +177,14 @@ def render_file(world, i, root_abs):
         L.append('let broken = idf(1) + idf("a");')
     elif fail == "missing_import":
         L.append('let broken = import "./does-not-exist-%s.ucg";' % f["uid"])
+    elif fail == "div_zero":
+        L.append("let idf = func (x) => x;")
+        L.append("let broken = 10 / idf(0);")
+    elif fail == "mod_zero":
+        L.append("let idf = func (x) => x;")
+        L.append("let broken = 10 %% idf(0);")
+    elif fail == "format_too_few_args":
+        L.append('let broken = "@ and @" % (1);')
     elif fail == "strict_only_field":
         # fails only under strict lookups (the default); with --no-strict the missing field is NULL and the file builds
         L.append("let idf = func (x) => x;")
